@@ -442,6 +442,13 @@ func (vm *VM) extractStateHeight() (uint64, error) {
 	return stateHeight, nil
 }
 
+// extractLatestOutputBlock returns the output block that matches the latest committed state.
+//
+// Blocks are written to the chain index synchronously when consensus accepts them, but their
+// execution results and state are written later by the async accepter, so after an unclean
+// shutdown the chain index may be any number of blocks (bounded by the accepted queue) ahead
+// of the state. Return the block at the state height: the snow package re-processes the
+// blocks in (stateHeight, lastIndexedHeight] on top of it (reprocessFromOutputToInput).
 func (vm *VM) extractLatestOutputBlock(ctx context.Context) (*chain.OutputBlock, error) {
 	stateHeight, err := vm.extractStateHeight()
 	if err != nil {
@@ -451,16 +458,24 @@ func (vm *VM) extractLatestOutputBlock(ctx context.Context) (*chain.OutputBlock,
 	if err != nil {
 		return nil, fmt.Errorf("failed to get last accepted height: %w", err)
 	}
-	if lastIndexedHeight != stateHeight && lastIndexedHeight != stateHeight+1 {
+	if lastIndexedHeight < stateHeight {
 		return nil, fmt.Errorf("cannot extract latest output block from invalid state with last indexed height %d and state height %d", lastIndexedHeight, stateHeight)
 	}
+	blk, err := vm.chainStore.GetBlockByHeight(ctx, stateHeight)
+	if err != nil {
+		return nil, fmt.Errorf("failed to get block at latest state height %d: %w", stateHeight, err)
+	}
 
-	// If the heights match exactly, we must have stored the last execution results
-	if lastIndexedHeight == stateHeight {
-		resultBytes, err := vm.executionResultsDB.Get([]byte{lastResultKey})
-		if err != nil {
-			return nil, fmt.Errorf("failed to fetch last execution results: %w", err)
-		}
+	// The execution results are written before the state is committed, so the stored results
+	// belong either to the block at the state height or to its child.
+	executionResults := &chain.ExecutionResults{}
+	resultBytes, err := vm.executionResultsDB.Get([]byte{lastResultKey})
+	switch {
+	case err == database.ErrNotFound && stateHeight == 0:
+		// genesis has no execution results
+	case err != nil:
+		return nil, fmt.Errorf("failed to fetch last execution results: %w", err)
+	default:
 		if len(resultBytes) < consts.Uint64Len {
 			return nil, fmt.Errorf("invalid execution results length: %d", len(resultBytes))
 		}
@@ -468,38 +483,25 @@ func (vm *VM) extractLatestOutputBlock(ctx context.Context) (*chain.OutputBlock,
 		if err != nil {
 			return nil, fmt.Errorf("failed to parse execution results height: %w", err)
 		}
-		if executionResultsHeight != stateHeight {
+		switch {
+		case executionResultsHeight == stateHeight:
+			executionResults, err = chain.ParseExecutionResults(resultBytes[:len(resultBytes)-consts.Uint64Len])
+			if err != nil {
+				return nil, fmt.Errorf("failed to unmarshal execution results for last accepted block: %w", err)
+			}
+		case executionResultsHeight == stateHeight+1 && lastIndexedHeight > stateHeight:
+			// The node stopped between writing the results of the next block and committing its
+			// state. That block is re-processed on startup; the block at the state height is not
+			// the last accepted block, so its (overwritten) results are not needed.
+		default:
 			return nil, fmt.Errorf("execution results height %d does not match state height %d", executionResultsHeight, stateHeight)
 		}
-		blk, err := vm.chainStore.GetBlockByHeight(ctx, stateHeight)
-		if err != nil {
-			return nil, fmt.Errorf("failed to get block at latest state height %d: %w", stateHeight, err)
-		}
-		executionResults, err := chain.ParseExecutionResults(resultBytes[:len(resultBytes)-consts.Uint64Len])
-		if err != nil {
-			return nil, fmt.Errorf("failed to unmarshal execution results for last accepted block: %w", err)
-		}
-		return &chain.OutputBlock{
-			ExecutionBlock:   blk,
-			View:             vm.stateDB,
-			ExecutionResults: executionResults,
-		}, nil
 	}
-
-	// The last indexedHeight must be stateHeight+1, so we can execute the last block to populate
-	// execution results
-	blk, err := vm.chainStore.GetBlockByHeight(ctx, stateHeight+1)
-	if err != nil {
-		return nil, fmt.Errorf("failed to get block at latest state height %d: %w", stateHeight, err)
-	}
-	outputBlock, err := vm.chain.Execute(ctx, vm.stateDB, blk, false)
-	if err != nil {
-		return nil, fmt.Errorf("failed to execute block at latest state height %d: %w", stateHeight, err)
-	}
-	if _, err := vm.AcceptBlock(ctx, nil, outputBlock); err != nil {
-		return nil, err
-	}
-	return outputBlock, nil
+	return &chain.OutputBlock{
+		ExecutionBlock:   blk,
+		View:             vm.stateDB,
+		ExecutionResults: executionResults,
+	}, nil
 }
 
 func (vm *VM) initGenesisAsLastAccepted(ctx context.Context) (*chain.OutputBlock, error) {
